@@ -106,9 +106,28 @@ pub fn run(ctx: &Ctx) -> Result<Evidence, String> {
         let n = rng.below(5) as usize;
         bs.push(J::Arr((0..n).map(|_| gen::random_doc(&mut rng, &cfg)).collect()));
     }
+    // second exhaustive family: arrays of length <= 3 over small integers around the 64-bit
+    // word boundary (bit-set style fast paths)
+    let ints = [0i64, 1, 63, 64, 65];
+    let mut int_arrs: Vec<Vec<J>> = vec![vec![]];
+    let mut layer: Vec<Vec<J>> = vec![vec![]];
+    for _ in 0..3 {
+        let mut next = vec![];
+        for a in &layer {
+            for e in ints {
+                let mut b = a.clone();
+                b.push(J::int(e));
+                next.push(b);
+            }
+        }
+        int_arrs.extend(next.iter().cloned());
+        layer = next;
+    }
+    let first_int_b = bs.len();
+    bs.extend(int_arrs.iter().map(|a| J::Arr(a.clone())));
     let n_array_bs = bs.len();
     bs.extend(vec![J::int(1), J::str("a"), J::Null, J::Obj(vec![("k".into(), J::int(1))]), J::Bool(true)]);
-    let docs: Vec<Doc> = bs.iter().map(|b| Doc::new(&doc_for(b, &arrs))).collect();
+    let docs: Vec<Doc> = bs.iter().enumerate().map(|(i, b)| Doc::new(&doc_for(b, if i >= first_int_b && i < first_int_b + int_arrs.len() { &int_arrs } else { &arrs }))).collect();
     let tm = templates();
     let total = docs.len() * tm.len();
 
@@ -198,6 +217,56 @@ pub fn run(ctx: &Ctx) -> Result<Evidence, String> {
             Verdict::Violated(m) => ctx.violate(&m, judge::replay_json("query", text, doc, &j)),
         }
     });
+    // histories: a long list searched, changed in place through reference_mut (same buffer,
+    // same length), searched again; and same-shaped documents dropped and re-created
+    let mut acc = acc;
+    {
+        use jsonpath_rust::query::queryable::Queryable;
+        let mut r = Rng::stream(ctx.seed, 1414);
+        let rounds = ctx.tier.pick(300, 5000);
+        for round in 0..rounds {
+            let n = 32 + r.below(40) as usize;
+            let mut list: Vec<J> = (0..n).map(|i| if i % 4 == 0 { J::str(&format!("s{}", i)) } else { J::int(i as i64 * 3) }).collect();
+            let mut cands: Vec<J> = (0..12).map(|i| J::int(i * 3)).collect();
+            cands.extend(vec![J::int(1000), J::int(1001), J::str("new"), J::str("s4"), J::Arr(vec![J::int(1000), J::int(3)]), J::Arr(vec![J::int(3), J::int(6)]), J::Arr(vec![J::int(1001)])]);
+            let mk = |list: &Vec<J>| J::Obj(vec![("list".into(), J::Arr(list.clone())), ("c".into(), J::Arr(cands.clone()))]);
+            let mut real = mk(&list).to_value();
+            for step in 0..4 {
+                let model = mk(&list);
+                for f in FNS {
+                    let q = if f == "in" || f == "nin" { format!("$.c[?{}(@, $.list)]", f) } else { format!("$.c[?{}(@, $.list)]", f) };
+                    let p = analyze(&q);
+                    let want: Vec<String> = match oracle::eval::eval_locs(p.ast.as_ref().unwrap(), &J::from_value(&model.to_value()), oracle::eval::Dev::default()) {
+                        Ok((l, fl, _)) if !fl.u5 => l.iter().map(|x| oracle::npath::render(x)).collect(),
+                        _ => continue,
+                    };
+                    let got: Vec<String> = match libapi::query_with_path(&q, &real) {
+                        LibOutcome::Ok(ns) => ns.into_iter().map(|x| x.1).collect(),
+                        o => vec![o.brief()],
+                    };
+                    acc.evaluations += 1;
+                    acc.count("history_evaluations", 1);
+                    if got != want {
+                        ctx.violate(
+                            &format!("{} after {} in-place changes of a {}-element list (round {}): expected {:?} observed {:?}", q, step, n, round, want, got),
+                            json!({"kind":"history","query": q, "document_now": real, "in_place_changes": step}),
+                        );
+                    }
+                }
+                // change one element in place: a value that was not in the list before
+                let k = r.below(n as u64) as usize;
+                let newv = [J::int(1000), J::int(1001), J::str("new"), J::int(1000 + step)][r.below(4) as usize].clone();
+                list[k] = newv.clone();
+                if let Some(slot) = real.reference_mut(format!("$['list'][{}]", k)) {
+                    *slot = newv.to_value();
+                } else {
+                    ctx.violate("reference_mut on an existing list element returned None", json!({"kind":"history","path": format!("$['list'][{}]", k)}));
+                }
+            }
+            drop(real);
+        }
+        acc.nontrivial(b"in-place-mutation-histories");
+    }
     if acc.counters.get("HARNESS_unparsable").copied().unwrap_or(0) > 0 {
         return Err("a C14 template does not parse in oracle (b)".into());
     }
